@@ -24,11 +24,18 @@ RULE = ('random cases over operations mix_from (0-4 inlets, Stream/MultiStream i
         'non-empty inlet among empties / several inlets / itself / its own views, energy balance on and off, copy_flow in and out with removal, separate_out of a part, scale, imol assignments, phases extension, '
         'being an outlet of another split, writes through a view: mix_from / copy_flow(remove) / scale / copy_like on ms[p]; optionally made on a proxy / flow_proxy / linked stream), and is then judged '
         'THROUGH the handed-out state: MultiStream.split_to into kept (stale) or fresh outlets, views / linked / given streams as inlets of mix_from and Stream.sum, as source of copy_flow(remove=True), as feed of '
-        'split_to, flows read through imass; every expectation comes from a dense ledger of the subject\'s own flow data taken just before the call; a history ends at its first violated step')
+        'split_to, flows read through imass; every expectation comes from a dense ledger of the subject\'s own flow data taken just before the call; a history ends at its first violated step. '
+        'Oracle audit 2: copy_flow(remove=True) is also judged on the DESTINATION side of every entry that was not selected (kept exactly; the two call forms that clear the destination first may '
+        'leave exactly 0); a numerical raise of the temperature / equilibrium solver behind mix_from, +=, -= is a refusal only when a solver runs at all (>= 2 non-empty inlets) and the flows the '
+        'failed call left behind are judged all the same, with a bound on the number of such raises per shard; the separate_out remainder is bounded per (phase, chemical) entry by 32 ulps of '
+        '|a|+|b| of that entry; vle totals to 1e-12; in a history a step may void the handed-out views / linked streams (rebuild the subject on other phases) only if its inputs call for it')
 MIN_NONTRIVIAL = {'quick': 500, 'thorough': 20000}
 ASSUMPTIONS = ['receiver package lists every chemical of the inlets (the quantifier of C01)',
                'energy balance is switched on only for liquid/gas streams at 280-400 K (energy itself is C02)',
-               'multi-phase split_to outlets hold stale content only in phases of the feed']
+               'multi-phase split_to outlets hold stale content only in phases of the feed',
+               'copy_flow(remove=True) of EVERYTHING into a single-phase stream, and of a single-phase source into a multi-phase destination without exclude, clear the destination first '
+               '(documented copy semantics): entries that were not selected may there be exactly 0 instead of what they were',
+               'after a numerical raise of the solver behind vle=True the per-chemical totals are judged to 1e-9 (no such raise could be observed on the pinned library to measure the resolution)']
 
 PKGS = [
     ('Water', 'Ethanol', 'Methanol', 'Glycerol', 'Octane', 'CO2'),
@@ -40,6 +47,10 @@ PKGS = [
 ]
 FULL = (0, 5)
 PHASES = 'slgSL'
+EPS = 2.220446049250313e-16
+# separate_out: the remainder (a+b)-b of ONE (phase, chemical) entry is a rounded sum and a rounded difference: exact to 1 ulp of a+b (a few more where the
+# phases of b are summed first).  Bound per entry = SEP_ULPS * EPS * (|a| + |b|) of THAT entry; worst observed over >10 quick-sized runs: see sep_diff.
+SEP_ULPS = 32
 
 
 def required(tier):
@@ -53,7 +64,13 @@ def required(tier):
             'hist:receive/outlet', 'hist:receive/phases', 'hist:receive/view-write-judged', 'hist:receive-on-alias',
             'hist:judge-after-receive/split', 'hist:judge-after-receive/via-mix', 'hist:judge-after-receive/via-move', 'hist:judge-after-receive/via-split', 'hist:judge-after-receive/via-sum',
             'hist:judge-after-receive/mass', 'hist:via-view', 'hist:via-linked', 'hist:via-proxy', 'hist:via-flow_proxy', 'hist:via-given',
-            'hist:views-cached/received-from-same-phases-stream/judged-through-views']
+            'hist:views-cached/received-from-same-phases-stream/judged-through-views',
+            # oracle audit 2: destination side of entries copy_flow(remove=True) did not select; cases in which a solver runs behind the mixing are judged
+            # (also after the solver raised); hand-outs voided only by steps whose inputs call for it
+            'move:dest-not-selected/judged', 'move:dest-not-selected/source-kept-material', 'move:dest-not-selected/dest-held-material/must-be-kept',
+            'mix:vle/solver-ran/judged', 'mix:vle/energy-balance/solver-ran/judged', 'mix:conserve/energy-balance/solver-ran/judged', 'mix:operator/energy-balance/judged',
+            'hist:receive/mix/energy-balance/solver-ran/judged', 'hist:judge/via-mix/energy-balance/solver-ran/judged',
+            'hist:subject-rebuilt', 'hist:aliases-voided/warranted:phases', 'hist:aliases-voided/warranted:copy_like', 'hist:aliases-voided/warranted:mix']
 
 
 UNDEF = (tmo.exceptions.UndefinedPhase, tmo.exceptions.UndefinedChemicalAlias) if hasattr(tmo, 'exceptions') else ()
@@ -177,6 +194,19 @@ def gen_sum(rng):
 # ---------------------------------------------------------------------------
 # executors
 
+def ledger_diff(a, b, rel=1e-12, abs_=0.0):
+    """vt.common.ledger_diff with one difference: an entry that is not a number is a discrepancy (nan compares False with every bound, so a nan flow
+    used to pass every 'd > tol' test).  Returns the offending entries and the largest relative discrepancy."""
+    bad = []; worst = 0.0
+    for k in set(a) | set(b):
+        x, y = a.get(k, 0.0), b.get(k, 0.0)
+        d = abs(x - y)
+        if not d <= abs_ + rel * max(abs(x), abs(y)): bad.append((k, x, y))
+        m = max(abs(x), abs(y))
+        if m and d == d: worst = max(worst, d / m)
+    return bad, worst
+
+
 def nflowing(l):
     return sum(1 for v in l.values() if v)
 
@@ -259,7 +289,7 @@ def run_split(case, rec):
             # feed - split*feed cancels when split is close to 1: both orders of evaluation (per phase then summed, or summed then split) are exact to a few
             # ulps of the FEED of that chemical, which is the floor of what can be asked of the remainder
             fc = collapse(fb)
-            bad = [(k_, x_, y_) for k_, x_, y_ in bad if abs(x_ - y_) > 1e-12 * max(abs(x_), abs(y_)) + 8 * 2.220446049250313e-16 * abs(fc.get(k_[1] if isinstance(k_, tuple) else k_, 0.0))]
+            bad = [(k_, x_, y_) for k_, x_, y_ in bad if not abs(x_ - y_) <= 1e-12 * max(abs(x_), abs(y_)) + 8 * 2.220446049250313e-16 * abs(fc.get(k_[1] if isinstance(k_, tuple) else k_, 0.0))]
         rec.check(not bad, 'split', f'{name}/{tag}', f'split_to: {name} differs from {"split*feed" if name == "s1" else "feed-split*feed"}: {bad[:4]}', residual=worst,
                   detail={'expected': {str(k): v for k, v in exp.items()}, 'got': {str(k): v for k, v in got.items()}})
     bb, _ = ledger_diff({str(k): v for k, v in phase_ledger(feed).items()}, {str(k): v for k, v in fb.items()}, rel=0)
@@ -269,6 +299,17 @@ def run_split(case, rec):
     if foreign: rec.hit('split:foreign-outlet')
     inside = (isinstance(split, list) and any(0 < x < 1 for x in split)) or (not isinstance(split, list) and 0 < split < 1)
     if inside and nflowing(collapse(fb)) >= 2: rec.mark_nontrivial(case_hash(case))
+
+
+def sep_diff(got, exp, weight):
+    """entries of the remainder that differ from exp by more than SEP_ULPS ulps of the magnitudes that entered the subtraction of THAT entry
+    (weight[k] = |a| + |b|); worst = largest |got - exp| / weight.  An entry with no weight must be exact."""
+    bad = []; worst = 0.0
+    for k in set(got) | set(exp):
+        x = got.get(k, 0.0); y = exp.get(k, 0.0); w = weight.get(k, 0.0); d = abs(x - y)
+        if w and d == d: worst = max(worst, d / w)
+        if not d <= SEP_ULPS * EPS * w: bad.append((k, x, y))
+    return bad, worst
 
 
 def run_separate(case, rec):
@@ -286,14 +327,58 @@ def run_separate(case, rec):
     except Exception as e:
         rec.exception('separate', e, what=f'separate_out({tag}) raised {type(e).__name__}: {str(e)[:150]}'); return
     got = ledger(m)
-    scale = max([abs(v) for v in total.values()] + [0.0])
-    bad, worst = ledger_diff(got, la, rel=0.0, abs_=1e-9 * scale)
-    rec.check(not bad, 'separate', f'remainder/{tag}', f'(a+b).separate_out(b) != a: {bad[:4]}', residual=(max([abs(got.get(k, 0) - la.get(k, 0)) for k in set(got) | set(la)] + [0]) / scale if scale else 0),
+    # per entry, relative to |a| + |b| of that chemical (was: 1e-9 of the largest flow of ALL chemicals, 6 orders above the rounding)
+    bad, worst = sep_diff(got, la, {c: abs(la.get(c, 0.0)) + abs(lb.get(c, 0.0)) for c in set(la) | set(lb)})
+    rec.check(not bad, 'separate', f'remainder/{tag}', f'(a+b).separate_out(b) != a: {bad[:4]}', residual=worst,
               detail={'a': la, 'b': lb, 'got': got})
     bb, _ = ledger_diff(ledger(b), lb, rel=0)
     rec.check(not bb, 'separate', f'other-changed/{tag}', 'separate_out changed the stream that was separated out')
     check_inv(rec, [m, b], 'separate')
     if la and lb and nflowing(total) >= 2: rec.mark_nontrivial(case_hash(case))
+
+
+def judge_dest_rest(rec, tag, src, dst, sb, db, da, named, exclude, sel_phases, whole):
+    """DESTINATION side of every entry that was NOT moved by dst.copy_flow(src, ..., remove=True) (the source side of those entries is judged by the
+    callers: it must be untouched).  Material that stayed in the source may not ALSO appear in the destination (duplication), and what the destination held
+    there may not vanish (loss): the destination entry is exactly what it was.  Two documented call forms clear the destination before they copy and are
+    allowed 'cleared' (exactly 0) as well: copying EVERYTHING into a single-phase stream (the destination becomes a copy of the source; only chemicals the
+    source package does not list are left over) and a single-phase source copied into a multi-phase destination without exclude (MultiStream.copy_flow
+    starts with data[:] = 0).  sb/db/da = phase ledgers of source before, destination before / after; named = CASs named by IDs; sel_phases = None (all)
+    or the set of selected phases; whole = everything is copied (IDs=..., no exclude)."""
+    multi_dst = isinstance(dst, tmo.MultiStream); multi_src = isinstance(src, tmo.MultiStream)
+    src_cas = set(src.chemicals.CASs)
+    src_phases = set(src.phases) if multi_src else {src.phase}
+    clear_first = (multi_dst and not multi_src and not exclude) or (not multi_dst and whole)
+    src_tot = {}
+    for (p, c), v in sb.items(): src_tot[c] = src_tot.get(c, 0.0) + v
+    problems = []; n = n_src = n_dst = 0
+    def one(where, c, moved, d0, d1, s0):
+        nonlocal n, n_src, n_dst
+        if moved: return
+        n += 1
+        if s0: n_src += 1
+        if d0: n_dst += 1
+        if not (d1 == d0 or (clear_first and d1 == 0)):
+            problems.append(('destination-entry-not-selected-changed' + ('/holds-what-the-source-kept' if s0 and d1 == s0 else ('/wiped' if d1 == 0 else '')),) + where + (c, 'source before', s0, 'destination before', d0, 'after', d1))
+    if multi_dst:
+        for ph in dst.phases:
+            for c in dst.chemicals.CASs:
+                selected = (sel_phases is None or ph in sel_phases) and c in named
+                moved = ((not selected) if exclude else selected) and ph in src_phases and c in src_cas
+                one((ph,), c, moved, db.get((ph, c), 0.0), da.get((ph, c), 0.0), sb.get((ph, c), 0.0) if multi_src else src_tot.get(c, 0.0))
+    else:
+        d0s = collapse(db); d1s = collapse(da)
+        for c in dst.chemicals.CASs:
+            moved = c in src_cas and ((c not in named) if exclude else (c in named))
+            one((), c, moved, d0s.get(c, 0.0), d1s.get(c, 0.0), src_tot.get(c, 0.0))
+    if not n: return
+    rec.check(not problems, 'move', f'dest-not-selected/{tag}' + ('/cleared-first-form' if clear_first else ''),
+              f'copy_flow(remove=True): destination entries that were NOT selected changed (material the source kept was duplicated into the destination, or content of the destination was lost): {problems[:4]}',
+              detail={'src_before': sled(sb), 'dst_before': sled(db), 'dst_after': sled(da)})
+    rec.hit('move:dest-not-selected/judged')
+    if n_src: rec.hit('move:dest-not-selected/source-kept-material')
+    if n_dst: rec.hit('move:dest-not-selected/dest-held-material')
+    if n_dst and not clear_first: rec.hit('move:dest-not-selected/dest-held-material/must-be-kept')
 
 
 def run_move(case, rec):
@@ -342,6 +427,7 @@ def run_move(case, rec):
     rec.check(not problems, 'move', f'{tag}', f'copy_flow(remove=True): material duplicated or lost: {problems[:4]}',
               detail={'src_before': {str(k): v for k, v in sb.items()}, 'dst_before': {str(k): v for k, v in db.items()},
                       'src_after': {str(k): v for k, v in sa.items()}, 'dst_after': {str(k): v for k, v in da.items()}})
+    judge_dest_rest(rec, tag, src, dst, sb, db, da, named, exclude, None if phase is None else {phase}, IDs is None and not exclude)
     check_inv(rec, [src, dst], 'move')
     if multi_dst or isinstance(src, tmo.MultiStream): rec.hit('move:multi-phase')
     if len([c for c in moved_cas if tot(sb, c)]) >= 1 and nflowing({c: tot(sb, c) for c in all_cas}) >= 2: rec.mark_nontrivial(case_hash(case))
@@ -454,15 +540,38 @@ def passes_through(e, parts):
     return False
 
 
-def not_material(e, rec, vle=False):
+def not_material(e, rec, vle=False, warranted=True):
     """a numerical failure of the temperature solver of the energy balance (C02) or of the equilibrium solver (C03/C04), not of the material
-    bookkeeping: counted, not judged here.  Programming errors (TypeError, AttributeError, IndexError, KeyError, ValueError ...) are still reported."""
-    if type(e).__name__ not in NUMERIC: return False
+    bookkeeping: the RAISE is counted, not judged here.  Programming errors (TypeError, AttributeError, IndexError, KeyError, ValueError ...) are still reported.
+    warranted: the harness can see from the inputs that a solver runs at all (energy balance / vle on AND at least two non-empty inlets, resp. a non-empty
+    remainder): a single non-empty inlet is copied and no inlet empties the receiver, so a numerical error there is reported like any other exception.
+    The material is written BEFORE the solver is called (Stream.mix_from: _imol.mix_from, then H / vle; separate_out: _imol.separate_out, then H), so the
+    callers go on to judge the flows the failed call left behind (after_failure): a bookkeeping error that hands the solver a composition it cannot
+    digest does not turn the case into 'not judged'."""
+    if type(e).__name__ not in NUMERIC or not warranted: return False
     if vle and passes_through(e, ['/thermosteam/equilibrium/']):
-        rec.refuse('vle=True: the equilibrium solver did not return normally (C03/C04), not judged'); return True
+        rec.refuse('vle=True: the equilibrium solver did not return normally (C03/C04), not judged'); rec.hit('solver-failed:vle'); return True
     if passes_through(e, ['/thermosteam/mixture/']):
-        rec.refuse('energy balance on: the temperature solver did not return normally (C02), not judged'); return True
+        rec.refuse('energy balance on: the temperature solver did not return normally (C02), not judged'); rec.hit('solver-failed:temperature'); return True
     return False
+
+
+def after_failure(rec, clause, mech, holder, expected, untouched, rel=1e-12, abs_of=None):
+    """the solver behind an energy balance / vle raised AFTER the material was written: the flows of `holder` are judged all the same (totals per chemical
+    against `expected`, a CAS ledger), and the streams of `untouched` = [(stream, phase ledger before)] must be what they were."""
+    got = ledger(holder)
+    if abs_of is None:
+        bad, worst = ledger_diff(got, expected, rel=rel)
+    else:
+        bad = [(c, got.get(c, 0.0), expected.get(c, 0.0)) for c in set(got) | set(expected) if not abs(got.get(c, 0.0) - expected.get(c, 0.0)) <= abs_of(c)]; worst = None
+    rec.check(not bad, clause, f'after-solver-failure/{mech}', f'the energy-balance / equilibrium solver raised after the material had been written and the flows left behind are not those of the operation: {bad[:4]}',
+              residual=worst, detail={'expected': expected, 'got': got})
+    for s, b in untouched:
+        bb, _ = ledger_diff(sled(phase_ledger(s)), sled(b), rel=0)
+        rec.check(not bb, clause, f'after-solver-failure/inlet-changed/{mech}', f'the call failed in the solver and changed an inlet / the stream separated out: {bb[:3]}')
+    e = stream_invariant(holder)
+    rec.check(e is None, 'invariant', f'after-solver-failure/{clause}', f'sparse invariant broken after a call that failed in the solver: {e}')
+    rec.hit(f'{clause}:judged-after-solver-failure')
 
 
 def gen_sep2(rng):
@@ -510,10 +619,11 @@ def run_sep2(case, rec):
     lb = phase_ledger(b)
     labels = set(m.phases)
     ids = m.chemicals.IDs; idx = {c: i for i, c in enumerate(m.chemicals.CASs)}
-    total = dict(la)
+    total = dict(la); weight = {k: abs(v) for k, v in la.items()}
     for (ph, c), v in lb.items():
         lab = ph if ph in labels else swapc(ph)
         total[(lab, c)] = total.get((lab, c), 0.0) + v
+        weight[(lab, c)] = weight.get((lab, c), 0.0) + abs(v)
     for (ph, c), v in total.items():
         m.imol[ph, ids[idx[c]]] = v
     foreign = b.chemicals is not m.chemicals
@@ -527,13 +637,15 @@ def run_sep2(case, rec):
         else:
             m.separate_out(b, energy_balance=False)
     except Exception as e:
-        if how == 'isub' and not_material(e, rec): return
+        if how == 'isub' and not_material(e, rec, warranted=bool(la) and bool(lb)):
+            # m -= b runs with the energy balance on: H is taken, the material separated, then T solved for.  The remainder is judged all the same
+            a_tot = collapse(la); b_tot = collapse(lb)
+            after_failure(rec, 'separate', f'remainder/{tag}', m, a_tot, [(b, lb)], abs_of=lambda c: 4 * SEP_ULPS * EPS * (abs(a_tot.get(c, 0.0)) + abs(b_tot.get(c, 0.0))))
+            return
         rec.exception('separate', e, what=f'separate_out({tag}) raised {type(e).__name__}: {str(e)[:150]}'); return
     got = phase_ledger(m)
-    scale = max([abs(v) for v in total.values()] + [0.0])
-    bad, _ = ledger_diff(sled(got), sled(la), rel=0.0, abs_=1e-9 * scale)
-    rec.check(not bad, 'separate', f'remainder/{tag}', f'(a+b).separate_out(b) != a per phase: {bad[:4]}',
-              residual=(max([abs(got.get(k, 0) - la.get(k, 0)) for k in set(got) | set(la)] + [0]) / scale if scale else 0),
+    bad, worst = sep_diff(got, la, weight)         # per (phase, chemical) entry, relative to |a| + |b| of that entry
+    rec.check(not bad, 'separate', f'remainder/{tag}', f'(a+b).separate_out(b) != a per phase: {bad[:4]}', residual=worst,
               detail={'a': sled(la), 'b': sled(lb), 'got': sled(got)})
     bb, _ = ledger_diff(sled(phase_ledger(b)), sled(lb), rel=0)
     rec.check(not bb, 'separate', f'other-changed/{tag}', 'separate_out changed the stream that was separated out')
@@ -647,6 +759,7 @@ def run_move2(case, rec):
             elif s1_ != s0: problems.append(('source-untouched-entry-changed', c, s0, s1_, d0, d1))
     rec.check(not problems, 'move', tag, f'copy_flow(remove=True): material duplicated or lost: {problems[:4]}',
               detail={'src_before': sled(sb), 'dst_before': sled(db), 'src_after': sled(sa), 'dst_after': sled(da)})
+    judge_dest_rest(rec, tag, src, dst, sb, db, da, named, exclude, sel_phases, IDs is None and not exclude)
     check_inv(rec, [src, dst], 'move')
     if outside: rec.hit('move:ids-not-in-source')
     if any(tot(sb, c) for c in all_cas) and nflowing({c: tot(sb, c) for c in all_cas}) >= 2: rec.mark_nontrivial(case_hash(case))
@@ -666,6 +779,7 @@ def run_op(case, rec):
     how = case['how']
     tmo.settings.set_thermo(a.thermo)       # a + b builds its result on the default package
     la, lb, lc = ledger(a), ledger(b), ledger(c)
+    pa, pb, pc = phase_ledger(a), phase_ledger(b), phase_ledger(c)
     kinds = ''.join('M' if isinstance(x, tmo.MultiStream) else 'S' for x in ((a, b, c) if how == 'builtin-sum' else (a, b)))
     foreign = b.chemicals is not a.chemicals or (how == 'builtin-sum' and c.chemicals is not a.chemicals)
     tag = f'{how}/{kinds}/' + ('foreign' if foreign else 'same') + '-package'
@@ -674,18 +788,20 @@ def run_op(case, rec):
         try:
             m = a + b
         except Exception as e:
-            if not_material(e, rec): return
+            # a + b hands nothing back when it raises: nothing to judge.  The temperature solver only runs with two non-empty operands
+            if not_material(e, rec, warranted=bool(la) and bool(lb)): rec.hit('mix:operator/solver-failed-nothing-returned'); return
             rec.exception('mix', e, what=f'a + b ({tag}) raised {type(e).__name__}: {str(e)[:150]}'); return
         if not la or not lb: rec.refuse('-= with an empty remainder or nothing to separate: not judged'); return
         try:
             m -= b
         except Exception as e:
-            if not_material(e, rec): return
+            if not_material(e, rec, warranted=True):
+                after_failure(rec, 'separate', f'remainder/operator/{tag}', m, la, [(b, pb)], abs_of=lambda c: 4 * SEP_ULPS * EPS * (abs(la.get(c, 0.0)) + abs(lb.get(c, 0.0))))
+                return
             rec.exception('separate', e, what=f'(a + b) -= b ({tag}) raised {type(e).__name__}: {str(e)[:150]}'); return
         got = ledger(m)
-        scale = max([abs(v) for v in ledger_add(la, lb).values()] + [0.0])
-        bad, _ = ledger_diff(got, la, rel=0.0, abs_=1e-9 * scale)
-        rec.check(not bad, 'separate', f'remainder/operator/{tag}', f'(a + b) -= b leaves other totals than a: {bad[:4]}', detail={'a': la, 'b': lb, 'got': got})
+        bad, worst = sep_diff(got, la, {c: abs(la.get(c, 0.0)) + abs(lb.get(c, 0.0)) for c in set(la) | set(lb)})
+        rec.check(not bad, 'separate', f'remainder/operator/{tag}', f'(a + b) -= b leaves other totals than a: {bad[:4]}', residual=worst, detail={'a': la, 'b': lb, 'got': got})
         bb, _ = ledger_diff(ledger(b), lb, rel=0)
         rec.check(not bb, 'separate', f'other-changed/operator/{tag}', '-= changed the stream that was separated out')
         check_inv(rec, [m, a, b], 'separate')
@@ -699,7 +815,12 @@ def run_op(case, rec):
             r = a; r += b; expected = ledger_add(la, lb); ins = [(b, lb)]
             rec.check(r is a, 'mix', f'iadd-identity/{tag}', 'a += b rebinds a to another object')
     except Exception as e:
-        if not_material(e, rec): return
+        n_ne = sum(1 for l in ((la, lb, lc) if how == 'builtin-sum' else (la, lb)) if l)
+        if not_material(e, rec, warranted=n_ne >= 2):
+            # a += b wrote into a before the temperature was solved for: judged; a + b / sum hand nothing back when they raise
+            if how == 'iadd': after_failure(rec, 'mix', f'sum/operator/{tag}', a, ledger_add(la, lb), [(b, pb)])
+            else: rec.hit('mix:operator/solver-failed-nothing-returned')
+            return
         rec.exception('mix', e, what=f'operator form {tag} raised {type(e).__name__}: {str(e)[:150]}'); return
     got = ledger(r)
     bad, worst = ledger_diff(got, expected, rel=1e-12)
@@ -709,6 +830,7 @@ def run_op(case, rec):
         rec.check(not bb, 'mix', f'inlet-changed/operator/{tag}', f'operator form {how} changed an operand: {bb[:3]}')
     check_inv(rec, [r, a, b, c], 'mix')
     rec.hit('mix:operator-' + how)
+    rec.hit('mix:operator/energy-balance/judged')
     if sum(1 for o, l in ins if l) + (1 if how == 'iadd' and la else 0) >= 2 and nflowing(expected) >= 2: rec.mark_nontrivial(case_hash(case))
 
 
@@ -750,15 +872,21 @@ def run_mix2(case, rec):
     kw = {'energy_balance': eb}
     if form == 'conserve': kw['conserve_phases'] = True
     if form == 'vle': kw['vle'] = True
+    n_nonempty = sum(1 for b in before if b)
+    pbefore = [phase_ledger(o) for o in objs]
     try:
         recv.mix_from(objs, **kw)
     except Exception as e:
-        if (form == 'vle' or eb) and not_material(e, rec, vle=form == 'vle'): return
+        # a solver only runs with at least two non-empty inlets (one is copied, none empties the receiver)
+        if (form == 'vle' or eb) and not_material(e, rec, vle=form == 'vle', warranted=n_nonempty >= 2):
+            after_failure(rec, 'mix', f'sum/{tag}', recv, expected, [(o, b) for o, b in zip(objs, pbefore) if o is not recv and not any(o is v for v in views)],
+                          rel=1e-9 if form == 'vle' else 1e-12)
+            rec.hit('mix:' + form)
+            return
         rec.exception('mix', e, what=f'mix_from({len(objs)} inlets, {tag}) raised {type(e).__name__}: {str(e)[:150]}')
         return
     got = ledger(recv)
-    n_nonempty = sum(1 for b in before if b)
-    rel = 1e-9 if form == 'vle' else 1e-12
+    rel = 1e-12      # vle: the liquid is total - vapour per chemical, observed 4e-16 over 3000 vle cases (was 1e-9)
     bad, worst = ledger_diff(got, expected, rel=rel)
     mech = tag + ('/receiver-among-inlets' if any(o is recv for o in objs) else '') + ('/single-nonempty-inlet' if n_nonempty == 1 else '')
     rec.check(not bad, 'mix', f'sum/{mech}', f'mix_from({form}): per-chemical totals differ from the sum of the inlets: {bad[:4]}', residual=worst, detail={'expected': expected, 'got': got})
@@ -768,6 +896,8 @@ def run_mix2(case, rec):
         rec.check(not bb, 'mix', f'inlet-changed/{tag}', f'mix_from changed an inlet: {bb[:3]}')
     check_inv(rec, [recv] + [o for o in objs if not any(o is v for v in views)], 'mix')
     rec.hit('mix:' + form)
+    if form == 'vle' and n_nonempty >= 2: rec.hit('mix:vle/solver-ran/judged')
+    if eb and n_nonempty >= 2: rec.hit(f'mix:{form}/energy-balance/solver-ran/judged')
     if form == 'conserve' and eb: rec.hit('mix:conserve/energy-balance')
     if n_nonempty >= 2 and nflowing(expected) >= 2: rec.mark_nontrivial(case_hash(case))
 
@@ -832,7 +962,7 @@ def run_split2(case, rec):
             # rounding floor of the remainder: a few ulps of the feed of that chemical (see the first split clause)
             fc = {}
             for (ph_, c_), v_ in fb.items(): fc[c_] = fc.get(c_, 0.0) + abs(v_)
-            bad = [(k_, x_, y_) for k_, x_, y_ in bad if abs(x_ - y_) > 1e-12 * max(abs(x_), abs(y_)) + 8 * 2.220446049250313e-16 * max([v_ for c_, v_ in fc.items() if c_ in str(k_)] + [0.0])]
+            bad = [(k_, x_, y_) for k_, x_, y_ in bad if not abs(x_ - y_) <= 1e-12 * max(abs(x_), abs(y_)) + 8 * 2.220446049250313e-16 * max([v_ for c_, v_ in fc.items() if c_ in str(k_)] + [0.0])]
         rec.check(not bad, 'split', f'{name}/{tag}', f'split_to: {name} differs from {"split*feed" if name == "s1" else "feed-split*feed"}: {bad[:4]}', residual=worst,
                   detail={'expected': exp, 'got': got})
     bb, _ = ledger_diff(sled(phase_ledger(feed)), sled(fb), rel=0)
@@ -1100,6 +1230,7 @@ class HState:
         self.received = False
         self.judged = 0
         self.views = case['made'] == 'from_streams'      # phase views of the subject exist (cached on it)
+        self.warrant = None                              # why the step that runs may rebuild the subject on other phases / as another class (None: it may not)
         self.core = False                                # ... and it has since received the content of a multi-phase stream with its own package and phases
 
     def note_source(self, other, only):
@@ -1111,6 +1242,38 @@ class HState:
 
     def ctx(self):
         return ('multi' if hmulti(self.subj) else 'single') + '-subject/after-' + self.last
+
+    def shape(self):
+        return tuple(self.subj.phases), type(self.subj)
+
+    def live(self):
+        """the hand-outs that stand for the subject as it is now"""
+        sh = self.shape()
+        return [a for a in self.aliases if (a['phases_at'], a['cls']) == sh]
+
+    def may_rebuild(self, other_streams, why):
+        """called by a receiving step BEFORE its call: the step is entitled to rebuild the subject on other phases only if the harness can see why from the
+        inputs: a stream copied from / mixed in whose kind or phases are not the subject's"""
+        s = self.subj
+        for o in other_streams:
+            if hmulti(o) != hmulti(s) or not set(o.phases) <= set(s.phases) or (why == 'copy_like' and tuple(o.phases) != tuple(s.phases)):
+                self.warrant = why; return
+
+    def after_step(self, step, before, live_before, rec):
+        """a hand-out (linked stream, proxy, view, given stream) is void once the subject was rebuilt on other phases / as another class: what used to be
+        dropped silently in valid().  Only a step whose INPUTS call for that may do it (phases=, copy_like / mix_from of a stream of another kind or with
+        other phases); any other change of the phase tuple or class while hand-outs are live - in particular
+        the same phases in another order - silently takes the views / linked streams out of every later judgement and is reported."""
+        now = self.shape()
+        if now == before: return
+        rec.hit('hist:subject-rebuilt')
+        if not live_before: return
+        reordered = set(now[0]) == set(before[0]) and now[1] is before[1]
+        ok = self.warrant is not None and not reordered
+        rec.check(ok, 'history', f'alias-voided-unexpectedly/{step["op"]}' + ('/' + step['how'] if step['op'] in ('touch', 'view-write') else '') + ('/same-phases-reordered' if reordered else ''),
+                  f'step {step["op"]} changed the phases / class of the stream from {before[0]} {before[1].__name__} to {now[0]} {now[1].__name__} although nothing in its inputs calls for it: '
+                  f'{len(live_before)} handed-out views / linked streams / proxies no longer stand for the stream')
+        if ok: rec.hit('hist:aliases-voided/warranted:' + self.warrant)
 
     def valid(self, whole=None, phase=None):
         s = self.subj
@@ -1184,6 +1347,7 @@ def h_copy_like(step, st, rec):
     tgt, tk = st.target(step)
     other = build_rel(step['other'], st.subj)
     lo = phase_ledger(other)
+    st.may_rebuild([other], 'copy_like')
     try:
         tgt.copy_like(other)
     except Exception as e:
@@ -1213,10 +1377,13 @@ def h_mix(step, st, rec):
     n_nonempty = sum(1 for e in exp if e)
     eb = step['eb'] and tk == 'self'
     mech = f'{st.ctx()}' + ('/on-' + tk if tk != 'self' else '') + ('/energy-balance' if eb else '') + ('/single-nonempty-inlet' if n_nonempty == 1 else '')
+    st.may_rebuild([o for o, _ in free], 'mix')
     try:
         tgt.mix_from(objs, energy_balance=eb)
     except Exception as e:
-        if eb and not_material(e, rec): return False
+        if eb and not_material(e, rec, warranted=n_nonempty >= 2):
+            after_failure(rec, 'mix', f'history/sum/{mech}', s, expected, free)
+            return False
         rec.exception('mix', e, what=f'mix_from({len(objs)} inlets; history: {mech}) raised {type(e).__name__}: {str(e)[:150]}'); return False
     got = ledger(s)
     bad, worst = ledger_diff(got, expected, rel=1e-12)
@@ -1230,6 +1397,7 @@ def h_mix(step, st, rec):
         if b: st.note_source(o, n_nonempty == 1 and eb)
     st.last = ('mix-single-nonempty-inlet' if n_nonempty == 1 else 'mix') + ('' if tk == 'self' else '-on-' + tk); st.received = True
     rec.hit('hist:receive/mix')
+    if eb and n_nonempty >= 2: rec.hit('hist:receive/mix/energy-balance/solver-ran/judged')
     if n_nonempty == 1 and eb: rec.hit('hist:receive/mix-single-nonempty-inlet/energy-balance')
     if tk != 'self': rec.hit('hist:receive-on-alias')
 
@@ -1312,6 +1480,7 @@ def h_set(step, st, rec):
 
 def h_phases(step, st, rec):
     s = st.subj
+    st.warrant = 'phases'
     try:
         s.phases = tuple(s.phases) + (step['add'],)
     except Exception as e:
@@ -1344,16 +1513,19 @@ def h_sep(step, st, rec):
         s.separate_out(part, energy_balance=False)
     except Exception as e:
         rec.exception('separate', e, what=f'separate_out (history: {tag}) raised {type(e).__name__}: {str(e)[:150]}'); return False
-    scale = max([abs(v) for v in t0.values()] + [0.0])
     if hmulti(s):
         exp = {kk: v - lp.get(kk, 0.0) for kk, v in t0.items()}
+        weight = {kk: abs(v) + abs(lp.get(kk, 0.0)) for kk, v in t0.items()}
         got = phase_ledger(s)
     else:
         lpc = collapse(lp)
         exp = {kk: v - lpc.get(kk[1], 0.0) for kk, v in t0.items()}
+        weight = {kk: abs(v) + abs(lpc.get(kk[1], 0.0)) for kk, v in t0.items()}
         got = phase_ledger(s)
-    bad, _ = ledger_diff(sled(got), sled(exp), rel=0.0, abs_=1e-9 * scale)
-    rec.check(not bad, 'separate', f'history/remainder/{tag}', f'separate_out in a history: the remainder differs from subject - part: {bad[:4]}', detail={'subject': sled(t0), 'part': sled(lp), 'got': sled(got)})
+    exp = {kk: v for kk, v in exp.items() if v}
+    bad, worst = sep_diff(got, exp, weight)        # per entry, relative to |subject| + |part| of that entry
+    rec.check(not bad, 'separate', f'history/remainder/{tag}', f'separate_out in a history: the remainder differs from subject - part: {bad[:4]}', residual=worst,
+              detail={'subject': sled(t0), 'part': sled(lp), 'got': sled(got)})
     bb, _ = ledger_diff(sled(phase_ledger(part)), sled(lp), rel=0)
     rec.check(not bb, 'separate', f'history/other-changed/{tag}', 'separate_out changed the stream that was separated out')
     # tiny negative residues of v - v*f are emptied so that the history goes on inside the quantifier (non-negative flows)
@@ -1391,7 +1563,7 @@ def hsplit_judge(rec, feed, fb, s1, s2, split, eb, mech, st=None, outlet_only=No
         bad, worst = ledger_diff(got, exp, rel=1e-12, abs_=0.0)
         if bad:
             # rounding floor of the remainder: a few ulps of the feed of that chemical (see the first split clause)
-            bad = [(k_, x_, y_) for k_, x_, y_ in bad if abs(x_ - y_) > 1e-12 * max(abs(x_), abs(y_)) + 8 * 2.220446049250313e-16 * max([v_ for c_, v_ in fc.items() if c_ in str(k_)] + [0.0])]
+            bad = [(k_, x_, y_) for k_, x_, y_ in bad if not abs(x_ - y_) <= 1e-12 * max(abs(x_), abs(y_)) + 8 * 2.220446049250313e-16 * max([v_ for c_, v_ in fc.items() if c_ in str(k_)] + [0.0])]
         rec.check(not bad, 'split', f'history/{name}/{mech}', f'split_to in a history ({mech}): {name} differs from {"split*feed" if name == "s1" else "feed-split*feed"}: {bad[:4]}', residual=worst,
                   detail={'feed': sled(fb), 'expected': exp, 'got': got})
     return True
@@ -1514,7 +1686,9 @@ def h_via_mix(step, st, rec):
     try:
         recv.mix_from(objs, energy_balance=eb)
     except Exception as e:
-        if eb and not_material(e, rec): return False
+        if eb and not_material(e, rec, warranted=n_nonempty >= 2):
+            after_failure(rec, 'mix', f'history/sum-of-handed-out-inlets/{mech}', recv, expected, [(s, t0)] + free)
+            return False
         rec.exception('mix', e, what=f'mix_from (history: {mech}) raised {type(e).__name__}: {str(e)[:150]}'); return False
     got = ledger(recv)
     bad, worst = ledger_diff(got, expected, rel=1e-12)
@@ -1527,6 +1701,7 @@ def h_via_mix(step, st, rec):
         rec.check(not bb, 'mix', f'history/inlet-changed/{st.ctx()}', f'mix_from changed an inlet: {bb[:3]}')
     check_inv(rec, [recv, s], 'mix')
     rec.hit('hist:judge/via-mix')
+    if eb and n_nonempty >= 2: rec.hit('hist:judge/via-mix/energy-balance/solver-ran/judged')
     if st.received: rec.hit('hist:judge-after-receive/via-mix'); st.judged += 1
     if hmulti(s): st.judged_through_views(rec)
 
@@ -1636,7 +1811,10 @@ def run_hist(case, rec):
     if case['made'] == 'from_streams': rec.hit('hist:from_streams')
     for step in case['steps']:
         nv = sum(rec.viol_counts.values())
-        if HSTEPS[step['op']](step, st, rec) is False: break       # an exception was reported or a numerical refusal counted: the history ends here
+        before = st.shape(); live = st.live(); st.warrant = None
+        r = HSTEPS[step['op']](step, st, rec)
+        st.after_step(step, before, live, rec)
+        if r is False: break                                        # an exception was reported or a numerical refusal counted: the history ends here
         if sum(rec.viol_counts.values()) != nv: break               # what follows a violated step would only repeat it under other names
     if st.judged and nflowing(ledger(st.subj)) >= 2: rec.mark_nontrivial(case_hash(case))
 
@@ -1656,7 +1834,23 @@ def run_case(case, rec):
 
 
 def replay(case, rec):
+    if isinstance(case, dict) and case.get('t') == 'solver-failure-rate':
+        import random
+        run(rec, random.Random(case['rng_seed']), case['tier'], case['shard'], case['nshards']); return
     run_case(case, rec)
+
+
+EB_REACH = ('mix:operator/energy-balance/judged', 'separate:isub', 'mix:conserve/energy-balance/solver-ran/judged', 'mix:vle/energy-balance/solver-ran/judged',
+            'hist:receive/mix/energy-balance/solver-ran/judged', 'hist:judge/via-mix/energy-balance/solver-ran/judged')
+
+
+def judge_failure_rate(rec, tier, shard, nshards):
+    """the raises of the two solvers are counted, not judged (the flows they leave behind are): none was seen in 3000 vle cases and 30000 energy-balance cases of
+    the pinned library, so more than a handful per shard is a mechanism of its own (e.g. bookkeeping that hands the solvers what they cannot digest)"""
+    for name, den in (('vle', rec.reach.get('mix:vle', 0)), ('temperature', sum(rec.reach.get(k, 0) for k in EB_REACH))):
+        n = rec.reach.get('solver-failed:' + name, 0)
+        rec.check(n <= 3 + 0.02 * den, 'mix', f'solver-failure-rate/{name}-solver', f'the {name} solver behind mix_from / -= raised in {n} cases of {den} of this shard (recorded: none): too many cases end without a normal return',
+                  case={'t': 'solver-failure-rate', 'rng_seed': rec.seed * 1000 + shard, 'tier': tier, 'shard': shard, 'nshards': nshards})
 
 
 def run(rec, rng, tier, shard, nshards):
@@ -1679,3 +1873,4 @@ def run(rec, rng, tier, shard, nshards):
         case = gen_hist(rng)
         run_case(case, rec)
         if i % 701 == 0: rec.sample(case)
+    judge_failure_rate(rec, tier, shard, nshards)
